@@ -14,7 +14,7 @@ import (
 func init() { register("C06", propC06) }
 
 func propC06(r *Report, tier string) {
-	r.Explanation = "Structural necessary conditions of 'hits are the requested slice of the fully sorted match list': (a) K16 exhaustive finite abstract interpretation of SortOrder.Compare and CompareScoreDescending over all <,=,> relations of the compared fields, 0..2 keys and all flag values: equals the documented order (key priority, desc negation, hit-number tie-break), antisymmetric, specialised == generic for [-_score]; searchHitSorter.Less is Compare < 0; (b) comparator parametricity: no ordering decision in package collector compares fields of two different DocumentMatch values directly (everything goes through the injected comparator); the bounded stores never read Score/Sort/HitNumber; heap Less and slice insertion have the polarity 'keep the smallest, evict the largest' (sign tables); (c) the collector offers size+skip to the store and skip to Final; the search-after sentinel drops <= 0 and the evicted-bound shortcut drops only >= 0; (d) SearchBefore: Sort.Reverse applied twice on every success path with the re-sort after the restore, and the page is cut before the restore; (e) K11 the date layout used to print a search-after cursor equals the layout used to parse it back. (f) K12 encodeSearchAfter re-encodes a cursor exactly like the sort key of its mode: raw for string/auto field sorts, _id and _score; prefix-coded for number, date and geo distance."
+	r.Explanation = "Structural necessary conditions of 'hits are the requested slice of the fully sorted match list': (a) K16 exhaustive finite abstract interpretation of SortOrder.Compare and CompareScoreDescending over all <,=,> relations of the compared fields, 0..2 keys and all flag values: equals the documented order (key priority, desc negation, hit-number tie-break), antisymmetric, specialised == generic for [-_score]; searchHitSorter.Less is Compare < 0; (b) comparator parametricity: no ordering decision in package collector compares fields of two different DocumentMatch values directly (everything goes through the injected comparator); the bounded stores never read Score/Sort/HitNumber; heap Less and slice insertion have the polarity 'keep the smallest, evict the largest' (sign tables); (c) the collector offers size+skip to the store and skip to Final; the search-after sentinel drops <= 0 and the evicted-bound shortcut drops only >= 0; (d) SearchBefore: Sort.Reverse applied twice on every success path with the re-sort after the restore, and the page is cut before the restore; (e) K11 the date layout used to print a search-after cursor equals the layout used to parse it back. (f) K12 encodeSearchAfter re-encodes a cursor exactly like the sort key of its mode: raw for string/auto field sorts, _id and _score; prefix-coded for number, date and geo distance. (g) SortField.Reverse negates Desc and never re-assigns to Missing the value it has just tested for."
 	r.NotCovered = "correctness of the heap/slice algorithms for all arrival orders (inductive), paging tiling, PreAllocSizeSkipCap effects, sort-key extraction (SortField.Value, missing/mode)"
 	ruleComparatorTables(r, "K16-comparator-table")
 	ruleHitSorterLess(r, "K16-comparator-table")
@@ -25,6 +25,7 @@ func propC06(r *Report, tier string) {
 	ruleCursorLayoutAgreement(r, "K11-cursor-layout")
 	ruleCursorEncodingMirrorsSortMode(r, "K12-cursor-encoding")
 	rulePooledMatchResetIsTotal(r, "K9b-pooled-match-reset-total")
+	ruleReverseFlipsMissing(r, "K16-reverse-flips-missing")
 	r.Floor("K16-comparator-table", 4)
 	r.Floor("K7-comparator-parametricity", 3)
 	r.Floor("K16-store-polarity", 2)
@@ -598,4 +599,76 @@ func indexedByVarMinusOne(info *types.Info, e ast.Expr) bool {
 	}
 	k, isC := intConst(info, be.Y)
 	return isC && k == 1
+}
+
+// ruleReverseFlipsMissing (K16): SearchBefore is run as SearchAfter under the
+// reversed sort, so SortField.Reverse must turn the order around completely:
+// the direction AND the end at which documents without a value appear.  An
+// assignment to Missing that is reached knowing the current value (an if test
+// or a switch case on Missing) must assign a DIFFERENT constant - assigning
+// the value just tested leaves that end unflipped (hits without the field are
+// lost from the previous page).
+func ruleReverseFlipsMissing(r *Report, rule string) {
+	p := r.P
+	fi := p.MustFunc("search.(*SortField).Reverse")
+	r.Fn(fi)
+	info := fi.Pkg.TypesInfo
+	g := buildCFG(info, fi.Decl.Body)
+	constOf := func(e ast.Expr) (int64, bool) {
+		tv, ok := info.Types[e]
+		if !ok || tv.Value == nil || tv.Value.Kind() != constant.Int {
+			return 0, false
+		}
+		return constant.Int64Val(tv.Value)
+	}
+	n := 0
+	for _, st := range storesToField(info, fi.Decl.Body, "SortField", "Missing") {
+		if st.Rhs == nil {
+			continue
+		}
+		newV, isConst := constOf(st.Rhs)
+		if !isConst {
+			continue
+		}
+		n++
+		same := ""
+		for _, fc := range g.GuardsOf(st.Stmt) {
+			if !fc.Truth {
+				continue
+			}
+			if fc.Tag != nil {
+				if isField(info, fc.Tag, "SortField", "Missing") {
+					if v, ok := constOf(fc.Expr); ok && v == newV {
+						same = fc.String()
+					}
+				}
+				continue
+			}
+			be, isB := ast.Unparen(fc.Expr).(*ast.BinaryExpr)
+			if !isB || be.Op != token.EQL {
+				continue
+			}
+			x, y := be.X, be.Y
+			if !isField(info, x, "SortField", "Missing") {
+				x, y = y, x
+			}
+			if isField(info, x, "SortField", "Missing") {
+				if v, ok := constOf(y); ok && v == newV {
+					same = fc.String()
+				}
+			}
+		}
+		r.Ob(rule, fmt.Sprintf("%s/Missing-store#%d-changes-the-tested-value", fi.Name, n), st.Stmt.Pos(), same == "", "Reverse assigns to Missing the very value it has just tested for ("+same+"): that end is not flipped, so SearchBefore under the reversed order loses or misplaces the hits without a value")
+	}
+	// the direction itself
+	flips := false
+	for _, st := range storesToField(info, fi.Decl.Body, "SortField", "Desc") {
+		if u, ok := ast.Unparen(st.Rhs).(*ast.UnaryExpr); st.Rhs != nil && ok && u.Op == token.NOT && isField(info, u.X, "SortField", "Desc") {
+			flips = true
+		}
+	}
+	r.Ob(rule, fi.Name+"/flips-Desc", fi.Decl.Pos(), flips, "Reverse negates Desc")
+	if n < 1 {
+		undecidedf("%s: no constant store to Missing found", fi.Name)
+	}
 }
